@@ -262,6 +262,12 @@ Proof.
   induction xs as [|x r IH]; [reflexivity|]. cbn [list_beq]. unfold xattr_beq at 1. now rewrite !beq_refl, IH.
 Qed.
 
+Lemma xattr_beq_true a b : xattr_beq a b = true <-> a = b.
+Proof.
+  unfold xattr_beq. destruct a as [a1 a2], b as [b1 b2]. cbn. rewrite andb_true_iff, !beq_true.
+  split; [intros [-> ->]; reflexivity|intros H; injection H as -> ->; auto].
+Qed.
+
 Lemma common_ok m o h t :
   modspec_ok (mc_mod m) = true ->
   opt_bytes_beq (render_mod (mc_mod m)) (p_mod (m_opts (mc_member m))) = true ->
@@ -824,7 +830,9 @@ Definition inv (seen : list (N * bytes)) (prev : list (mcase * header)) : Prop :
     starts_with_slash n = true /\
     exists m h o, In (m, h) prev /\ h_name h = dot :: n /\ h_type h = TypeReg
       /\ m_src (mc_member m) = SPresent o /\ st_id (o_st o) = g
-      /\ p_hassrc (m_opts (mc_member m)) = false.
+      /\ p_hassrc (m_opts (mc_member m)) = false /\ (1 <? st_nlink (o_st o)) = true
+      /\ member_wf m = true
+      /\ common_fields_ok m o h = true /\ h_size h = st_size (o_st o) /\ h_data h = o_data o.
 
 Lemma inv_mono seen prev x : inv seen prev -> inv seen (prev ++ [x]).
 Proof.
@@ -840,12 +848,57 @@ Proof.
   - intros H. right. now apply IH.
 Qed.
 
-Lemma linked_ok_of_inv seen prev g tg : inv seen prev -> In (g, tg) seen ->
-  linked_ok prev g (dot :: tg) = true.
+Lemma stat_beq_true a b : stat_beq a b = true -> a = b.
 Proof.
-  intros Hinv Hin. destruct (Hinv g tg Hin) as (_ & m & h & o & Hp & Hn & Ht & Hs & Hid & Hsrc).
-  unfold linked_ok. apply existsb_exists. exists (m, h). split; [assumption|].
-  rewrite Hn, Ht, Hs, Hid, Hsrc, beq_refl, !N.eqb_refl. reflexivity.
+  destruct a, b. unfold stat_beq. cbn. intros H.
+  repeat (apply andb_true_iff in H as [H ?]).
+  repeat match goal with
+         | E : (_ =? _) = true |- _ => apply N.eqb_eq in E
+         | E : Z.eqb _ _ = true |- _ => apply Z.eqb_eq in E
+         end.
+  subst. reflexivity.
+Qed.
+
+(* a member without mod= has the trivial mod specification *)
+Lemma no_mod_MNone m : member_wf m = true -> p_mod (m_opts (mc_member m)) = None -> mc_mod m = MNone.
+Proof.
+  intros Hwf Hmod. unfold member_wf in Hwf. apply andb_true_iff in Hwf as [W _]. apply andb_true_iff in W as [W _].
+  apply andb_true_iff in W as [W _]. apply andb_true_iff in W as [W _]. apply andb_true_iff in W as [W _].
+  apply andb_true_iff in W as [W _]. apply andb_true_iff in W as [_ W].
+  apply opt_beq_bytes_true in W. rewrite Hmod in W. destruct (mc_mod m); [reflexivity|discriminate|discriminate].
+Qed.
+
+Lemma no_override_fields m : has_override m = false ->
+  p_mod (m_opts (mc_member m)) = None /\ p_uid (m_opts (mc_member m)) = None /\ p_gid (m_opts (mc_member m)) = None.
+Proof.
+  unfold has_override. intros H. apply orb_false_iff in H as [H H3]. apply orb_false_iff in H as [H1 H2].
+  destruct (p_mod _), (p_uid _), (p_gid _); try discriminate; auto.
+Qed.
+
+(* two names of one inode, neither carrying an override: the header written for the first
+   name is exactly what the second name calls for *)
+Lemma link_fields_ok m o m' o' h' :
+  member_wf m = true -> member_wf m' = true ->
+  m_src (mc_member m) = SPresent o -> m_src (mc_member m') = SPresent o' ->
+  st_id (o_st o') = st_id (o_st o) ->
+  p_hassrc (m_opts (mc_member m)) = false -> p_hassrc (m_opts (mc_member m')) = false ->
+  (1 <? st_nlink (o_st o)) = true -> (1 <? st_nlink (o_st o')) = true ->
+  inode_consistent m' m = true -> no_link_override m' m = true ->
+  common_fields_ok m' o' h' = true -> h_size h' = st_size (o_st o') -> h_data h' = o_data o' ->
+  common_fields_ok m o h' = true /\ (h_size h' =? st_size (o_st o)) = true /\ beq (h_data h') (o_data o) = true.
+Proof.
+  intros Hwf Hwf' Hs Hs' Hid Hsrc Hsrc' Hnl Hnl' Hcons Hno Hco Hsz Hdt.
+  unfold inode_consistent in Hcons. rewrite Hs, Hs' in Hcons. rewrite Hid, N.eqb_refl in Hcons. cbn [negb orb] in Hcons.
+  apply andb_true_iff in Hcons as [Hcons Hd]. apply andb_true_iff in Hcons as [Hst Hx].
+  apply stat_beq_true in Hst. apply (list_beq_true xattr_beq xattr_beq_true) in Hx. apply beq_true in Hd.
+  unfold no_link_override, same_inode, linkable in Hno. rewrite Hs, Hs', Hid, N.eqb_refl, Hsrc, Hsrc', Hnl, Hnl' in Hno.
+  cbn [negb andb] in Hno. apply negb_true_iff in Hno. apply orb_false_iff in Hno as [Ho' Ho].
+  destruct (no_override_fields _ Ho) as (M1 & U1 & G1). destruct (no_override_fields _ Ho') as (M2 & U2 & G2).
+  pose proof (no_mod_MNone _ Hwf M1) as N1. pose proof (no_mod_MNone _ Hwf' M2) as N2.
+  split; [|split].
+  - unfold common_fields_ok in *. rewrite N1, U1, G1. rewrite N2, U2, G2 in Hco. rewrite <- Hst, <- Hx. exact Hco.
+  - rewrite Hsz, Hst. apply N.eqb_refl.
+  - rewrite Hdt, Hd. apply beq_refl.
 Qed.
 
 Lemma mk_header_hardlink e tg : starts_with_slash tg = true ->
@@ -860,22 +913,35 @@ Qed.
 Definition member_pre (c : case) (m : mcase) : Prop :=
   member_wf m = true /\ Z.leb (c_t0 c) (m_now (mc_member m)) = true /\ Z.leb (m_now (mc_member m)) (c_t1 c) = true.
 
+Definition pair_ok (a b : mcase) : Prop := inode_consistent a b = true /\ no_link_override a b = true.
+
+Lemma pairwise_cons {A} (f : A -> A -> bool) a r :
+  pairwise f (a :: r) = true -> (forall b, In b r -> f a b = true) /\ pairwise f r = true.
+Proof. cbn [pairwise]. intros H. apply andb_true_iff in H as [H1 H2]. rewrite forallb_forall in H1. auto. Qed.
+
 Lemma run_members_ok c : forall ms es seen prev,
   Forall (member_pre c) ms ->
+  pairwise inode_consistent ms = true -> pairwise no_link_override ms = true ->
+  (forall m' h' m, In (m', h') prev -> In m ms -> pair_ok m' m) ->
   add_all (map mc_member ms) = ROk es ->
   inv seen prev ->
   exists hs, headers (fix_hardlinks seen es) = Some hs /\ members_ok c prev ms hs = true.
 Proof.
-  induction ms as [|m ms IH]; intros es seen prev Hpre Hadd Hinv.
+  induction ms as [|m ms IH]; intros es seen prev Hpre Hpc Hpn Hprev Hadd Hinv.
   - cbn in Hadd. injection Hadd as <-. exists []. split; reflexivity.
   - inversion Hpre as [|? ? [Hwf [Ht0 Ht1]] Hpre']; subst.
+    apply pairwise_cons in Hpc as [Hc1 Hpc]. apply pairwise_cons in Hpn as [Hn1 Hpn].
+    assert (Hprev' : forall hx m'0 h'0 m0, In (m'0, h'0) (prev ++ [(m, hx)]) -> In m0 ms -> pair_ok m'0 m0).
+    { intros hx m'0 h'0 m0 Hin Hm0. apply in_app_or in Hin as [Hin|[Hin|[]]].
+      - apply (Hprev m'0 h'0 m0 Hin). now right.
+      - injection Hin as <- <-. split; [now apply Hc1|now apply Hn1]. }
     cbn [map] in Hadd. apply add_all_ok_inv in Hadd as (l & Hl & [(e & He & ->)|(Hsk & ->)]).
     + (* the entry is written *)
       destruct (m_src (mc_member m)) as [| |o] eqn:Esrc.
       * (* synthesised *)
         destruct (absent_member c m _ e Hwf Esrc Ht0 Ht1 He) as (h & Hh & Hn & Hok & Hdi & _ & Hns).
         cbn [fix_hardlinks]. rewrite Hdi.
-        destruct (IH l seen (prev ++ [(m, h)]) Hpre' Hl (inv_mono _ _ _ Hinv)) as (hs & Hhs & Hms).
+        destruct (IH l seen (prev ++ [(m, h)]) Hpre' Hpc Hpn (Hprev' h) Hl (inv_mono _ _ _ Hinv)) as (hs & Hhs & Hms).
         exists (Some h :: hs). split; [cbn [headers]; now rewrite Hh, Hhs|].
         cbn [members_ok]. rewrite Hms, andb_true_r.
         unfold may_skip. rewrite Hns. cbn [andb negb].
@@ -897,47 +963,59 @@ Proof.
            destruct (group_first (st_id (o_st o)) seen) as [tg|] eqn:Egf.
            ++ (* a later member of an inode group: hard link to the first *)
               pose proof (group_first_in _ _ _ Egf) as Hin.
-              destruct (Hinv _ _ Hin) as (Hsl & _).
-              set (h' := MkHdr (dot :: e_name e) TypeLink (e_perms e) (e_uid e) (e_gid e) (e_mtime e) (e_fsize e)
+              destruct (Hinv _ _ Hin) as (Hsl & m' & h' & o' & Hp' & Hn' & Ht' & Hs' & Hid' & Hsrc' & Hnl' & Hwf' & Hco' & Hsz' & Hdt').
+              destruct (Hprev m' h' m Hp' (or_introl eq_refl)) as [Pc Pn].
+              destruct (link_fields_ok m o m' o' h' Hwf Hwf' Esrc Hs' Hid' Hsrc Hsrc' Hnl Hnl' Pc Pn Hco' Hsz' Hdt')
+                as (L1 & L2 & L3).
+              set (hl := MkHdr (dot :: e_name e) TypeLink (e_perms e) (e_uid e) (e_gid e) (e_mtime e) (e_fsize e)
                                (dot :: tg) 0 0 (match e_xattrs e with Some l0 => l0 | None => [] end) []).
-              destruct (IH l seen (prev ++ [(m, h')]) Hpre' Hl (inv_mono _ _ _ Hinv)) as (hs & Hhs & Hms).
-              exists (Some h' :: hs). split.
-              { cbn [headers]. rewrite (mk_header_hardlink e tg Hsl). fold h'. now rewrite Hhs. }
+              destruct (IH l seen (prev ++ [(m, hl)]) Hpre' Hpc Hpn (Hprev' hl) Hl (inv_mono _ _ _ Hinv)) as (hs & Hhs & Hms).
+              exists (Some hl :: hs). split.
+              { cbn [headers]. rewrite (mk_header_hardlink e tg Hsl). fold hl. now rewrite Hhs. }
               cbn [members_ok]. rewrite Hms, Hskip, andb_true_r. cbn [negb andb].
               unfold member_ok. rewrite Esrc. apply andb_true_iff. split; [cbn; rewrite Hn; apply beq_refl|].
               apply andb_true_iff. split.
-              ** unfold type_ok. rewrite <- Hty, Hreg, Hnl. cbn [h_type h_link h'].
-                 rewrite (linked_ok_of_inv seen prev _ tg Hinv Hin). reflexivity.
-              ** unfold present_fields_ok. rewrite (kind_ok_link _ o h' eq_refl), andb_true_r.
-                 rewrite (common_ok_ext m o h h'); [assumption|cbn; congruence..].
+              ** unfold type_ok. rewrite <- Hty, Hreg, Hnl. cbn [h_type h_link hl].
+                 assert (Lk : linked_ok prev m o (dot :: tg) = true).
+                 { unfold linked_ok. apply existsb_exists. exists (m', h'). split; [assumption|].
+                   rewrite Hn', Ht', Hs', Hid', Hsrc', L1, L2, L3, beq_refl, !N.eqb_refl. reflexivity. }
+                 rewrite Lk. reflexivity.
+              ** unfold present_fields_ok. rewrite (kind_ok_link _ o hl eq_refl), andb_true_r.
+                 rewrite (common_ok_ext m o h hl); [assumption|cbn; congruence..].
            ++ (* the first member of its inode group *)
+              assert (Hkd : h_size h = st_size (o_st o) /\ h_data h = o_data o).
+              { unfold kind_fields_ok in Hki. rewrite Hreg in Hki. cbn in Hki.
+                apply andb_true_iff in Hki as [Hki _]. apply andb_true_iff in Hki as [Hki _].
+                apply andb_true_iff in Hki as [K1 K2]. apply N.eqb_eq in K1. apply beq_true in K2. auto. }
               assert (Hinv' : inv (seen ++ [(st_id (o_st o), e_name e)]) (prev ++ [(m, h)])).
               { intros g n Hin. apply in_app_or in Hin as [Hin|[Hin|[]]].
                 - exact (inv_mono seen prev (m, h) Hinv g n Hin).
                 - injection Hin as <- <-. split; [now rewrite Hn|].
-                  exists m, h, o. split; [apply in_or_app; right; now left|]. auto. }
-              destruct (IH l _ _ Hpre' Hl Hinv') as (hs & Hhs & Hms).
+                  exists m, h, o. split; [apply in_or_app; right; now left|]. destruct Hkd. repeat split; auto. }
+              destruct (IH l _ _ Hpre' Hpc Hpn (Hprev' h) Hl Hinv') as (hs & Hhs & Hms).
               exists (Some h :: hs). split; [cbn [headers]; now rewrite Hh, Hhs|].
               cbn [members_ok]. rewrite Hms, Hskip, andb_true_r. cbn [negb andb].
               unfold member_ok. rewrite Esrc, Hname, Hn, beq_refl. cbn [andb].
               unfold type_ok, present_fields_ok. rewrite Hty, N.eqb_refl, Hco, Hki. reflexivity.
-        -- destruct (IH l seen (prev ++ [(m, h)]) Hpre' Hl (inv_mono _ _ _ Hinv)) as (hs & Hhs & Hms).
+        -- destruct (IH l seen (prev ++ [(m, h)]) Hpre' Hpc Hpn (Hprev' h) Hl (inv_mono _ _ _ Hinv)) as (hs & Hhs & Hms).
            exists (Some h :: hs). split; [cbn [headers]; now rewrite Hh, Hhs|].
            cbn [members_ok]. rewrite Hms, Hskip, andb_true_r. cbn [negb andb].
            unfold member_ok. rewrite Esrc, Hname, Hn, beq_refl. cbn [andb].
            unfold type_ok, present_fields_ok. rewrite Hty, N.eqb_refl, Hco, Hki. reflexivity.
     + (* the entry is skipped *)
       apply skip_inv in Hsk as [Hs Hp].
-      destruct (IH l seen prev Hpre' Hl Hinv) as (hs & Hhs & Hms).
+      destruct (IH l seen prev Hpre' Hpc Hpn) as (hs & Hhs & Hms); try assumption.
+      { intros m' h' m0 Hin Hm0. apply (Hprev m' h' m0 Hin). now right. }
       exists (None :: hs). split; [cbn [fix_hardlinks headers]; now rewrite Hhs|].
       cbn [members_ok]. rewrite Hms, andb_true_r. unfold may_skip.
-      change (m_opts (mc_member m)) with (m_opts (mc_member m)) in Hp.
       cbn [mc_member] in *. rewrite Hp, Hs. reflexivity.
 Qed.
 
-Lemma wf_members_pre c : wf c = true -> Forall (member_pre c) (c_members c).
+Lemma wf_members_pre c : wf c = true ->
+  Forall (member_pre c) (c_members c) /\ pairwise inode_consistent (c_members c) = true.
 Proof.
-  unfold wf. intros H. apply andb_true_iff in H as [H _]. apply andb_true_iff in H as [H Hwin].
+  unfold wf. intros H. apply andb_true_iff in H as [H Hpw]. split; [|assumption].
+  apply andb_true_iff in H as [H _]. apply andb_true_iff in H as [H Hwin].
   apply andb_true_iff in H as [H _]. apply andb_true_iff in H as [Hm _].
   apply Forall_forall. intros m Hin. rewrite forallb_forall in Hm, Hwin.
   specialize (Hm m Hin). specialize (Hwin m Hin). apply andb_true_iff in Hwin as [W0 W1].
@@ -946,12 +1024,14 @@ Qed.
 
 Theorem C07_holds_proof : forall c, wf c = true -> kf c = 0 -> spec c (model c) = true.
 Proof.
-  intros c Hwf _. pose proof (wf_members_pre c Hwf) as Hpre.
+  intros c Hwf Hkf. destruct (wf_members_pre c Hwf) as [Hpre Hpc].
+  assert (Hpn : pairwise no_link_override (c_members c) = true).
+  { unfold kf in Hkf. destruct (pairwise no_link_override (c_members c)); [reflexivity|discriminate]. }
   unfold spec, model. cbn [fst snd].
   apply andb_true_iff. split; [apply andb_true_iff; split; [apply andb_true_iff; split; [apply andb_true_iff; split|]|]|].
   - unfold run. destruct (add_all (map mc_member (c_members c))) as [es| | |] eqn:Ea.
-    + destruct (run_members_ok c (c_members c) es [] [] Hpre Ea) as (hs & Hhs & Hms).
-      { intros g n []. }
+    + destruct (run_members_ok c (c_members c) es [] [] Hpre Hpc Hpn) as (hs & Hhs & Hms);
+        [intros ? ? ? []|assumption|intros g n []|].
       now rewrite Hhs.
     + now apply add_all_not_skip in Ea.
     + (* refused: some member is not acceptable *)
@@ -1289,12 +1369,6 @@ Proof.
 Qed.
 
 (* ---------- header_faithful, spelled out field by field ---------- *)
-Lemma xattr_beq_true a b : xattr_beq a b = true <-> a = b.
-Proof.
-  unfold xattr_beq. destruct a as [a1 a2], b as [b1 b2]. cbn. rewrite andb_true_iff, !beq_true.
-  split; [intros [-> ->]; reflexivity|intros H; injection H as -> ->; auto].
-Qed.
-
 Theorem header_faithful m o now e :
   member_wf m = true -> m_src (mc_member m) = SPresent o ->
   p_mod (m_opts (mc_member m)) = None -> p_uid (m_opts (mc_member m)) = None ->
@@ -1358,3 +1432,14 @@ Proof. vm_compute. repeat split. eexists. split; reflexivity. Qed.
 
 Lemma dev_decode d : dev_major d = ref_major d /\ dev_minor d = ref_minor d.
 Proof. split; [exact (dev_major_arith d)|exact (dev_minor_arith d)]. Qed.
+
+(* ---------- known finding 1: an override on one name of a hard-linked inode ---------- *)
+Definition refute1_obj : object := MkObj (MkStat 33197 0 0 5%Z 3 0 2 1) [] [] 3 (bs "abc").
+Definition refute1_case : case :=
+  MkCase
+    [ MkM (MkMember (MkOpts LFile (bs "/a") false [] (Some (bs "o-r")) None None None false) (SPresent refute1_obj) 0%Z)
+          (MSym [(3, false, 0)]);
+      MkM (MkMember (MkOpts LNone (bs "/b") false [] None None None None true) (SPresent refute1_obj) 0%Z) MNone ]
+    0%Z 0%Z [] [] RFailed.
+Lemma refuted_1 : exists c, wf c = true /\ kf c = 1 /\ spec c (model c) = false.
+Proof. exists refute1_case. vm_compute. auto. Qed.
